@@ -2,7 +2,7 @@
     unshared mailbox.  Statements quoted by type from C03Facts.v, NpFactsA/B.v,
     GenidFacts.v (printed by [Check]). *)
 From MW Require Import Base Store Monad Usage Server Websocket Service Findings Inv Obs
-     ProtoFacts StepFacts NpFactsA NpFactsB GenidFacts C03Facts Inst_Params.
+     ProtoFacts StepFacts NpFactsA NpFactsB GenidFacts C03Facts Inst_Params ClaimedPair.
 Local Open Scope list_scope.
 
 (** every `claimed` answer is the mailbox id stored in THE nameplate row of the
@@ -71,6 +71,30 @@ Print Assumptions C03_live_distinct.
 
 
 (** the same name in two apps, and a re-claim after retirement: three different ids *)
+(** ** pairs of `claimed` answers in one run (ClaimedPair.v): two claims of the same (app, name) answered at
+    positions i < j are told the same id if the name stays listed in between ([claimed_pair_same_live]; a key
+    that has a row before and after an event -- crashes included -- keeps the same row); under the fresh-draws
+    hypothesis two answers are equal IFF they belong to the same nameplate row ([claimed_pair_iff]) *)
+Theorem C03_claimed_pair_same_live : ltac:(let t := type of claimed_pair_same_live in exact t).
+Proof. exact claimed_pair_same_live. Qed.
+Check C03_claimed_pair_same_live.
+Print Assumptions C03_claimed_pair_same_live.
+
+Theorem C03_claimed_pair_same : ltac:(let t := type of claimed_pair_same in exact t).
+Proof. exact claimed_pair_same. Qed.
+Check C03_claimed_pair_same.
+Print Assumptions C03_claimed_pair_same.
+
+Theorem C03_claimed_pair_distinct : ltac:(let t := type of claimed_pair_distinct in exact t).
+Proof. exact claimed_pair_distinct. Qed.
+Check C03_claimed_pair_distinct.
+Print Assumptions C03_claimed_pair_distinct.
+
+Theorem C03_claimed_pair_iff : ltac:(let t := type of claimed_pair_iff in exact t).
+Proof. exact claimed_pair_iff. Qed.
+Print Assumptions C03_claimed_pair_iff.
+
+
 Example C03_nonvacuous :
   let cfg := gen_cfg true false None in
   let o b := mkOracle (Some b) (mkAO None []) in
